@@ -39,13 +39,11 @@ func (s *SearchParams) init(query string) {
 			continue
 		}
 		kv := strings.SplitN(q, "=", 2)
-		name := s.url.parser.DecodePercentEncoded(kv[0])
-		name = strings.ReplaceAll(name, "+", " ")
+		// '+' means space; replace it before percent-decoding so that an escaped plus (%2B) survives
+		name := s.url.parser.DecodePercentEncoded(strings.ReplaceAll(kv[0], "+", " "))
 		nvp := &NameValuePair{Name: name}
 		if len(kv) == 2 {
-			value := s.url.parser.DecodePercentEncoded(kv[1])
-			value = strings.ReplaceAll(value, "+", " ")
-			nvp.Value = value
+			nvp.Value = s.url.parser.DecodePercentEncoded(strings.ReplaceAll(kv[1], "+", " "))
 		}
 		s.params = append(s.params, nvp)
 	}
